@@ -67,6 +67,8 @@ def run(ctx):
         ctx.guard("restart" + tag, restart_level, ctx, crate, crs, tag)
         import c09
         ctx.guard("new-solvables" + tag, c09.new_solvables, ctx, crate, crs, tag)  # every newly selected solvable gets encoded
+        import c15
+        ctx.guard("soft-solvables-registered" + tag, c15.soft_registered, ctx, crate, crs, tag)
         # the candidate lists the clauses are built from are the provider's (filter flag / map agreement, memoised under the right key)
         mech.memo_check(ctx, "candidate-lists", crate, crs, tag)
         mech.filter_siblings(ctx, crate, crs, tag, rule="candidate-lists")
@@ -185,6 +187,9 @@ def encoding(ctx, crate, crs, tag):
     if b is None:
         ctx.ob(R, ENC + "on_requirement_candidates_available", "exists", False, "", "consumer not found")
     else:
+        # (evaluated on the consumer with the shared registration routine spliced in)
+        b_plain = b
+        b = view(crate, ENC + "on_requirement_candidates_available", [AFMC])
         adds = b.calls_to("resolvo::solver::binary_encoding::AtMostOnceTracker::add")
         ctx.floor(R, "AtMostOnceTracker::add call", len(adds), 1)
         for i, t in adds:
